@@ -153,10 +153,11 @@ def options(draw, lbls, bounds_emphasis=False, algorithms=("overlap", "overlap",
             W = 0.7 * R0
         if W <= 0:
             W = 20
-        if len(lbls) > 60 and W < R0 / 8:
+        if len(lbls) > 60 and W * density < R0 / 8:
             # cost bound of the generator, not of the property: > 60 labels squeezed into dozens of layers take
-            # tens of seconds per layout (the engine is cubic there); such label sets get at most ~8 layers
-            W = R0 / 8
+            # tens of seconds per layout (the engine is cubic there); such label sets get a budget of at least an
+            # eighth of their required width
+            W = R0 / 8 / density
         o["maxPos"] = (lo if lo is not None else draw(st.integers(-100, 300))) + W
         if draw(st.integers(0, 11)) == 0:
             # an axis that ends exactly at 0 (bounds are numbers; 0 is as good as any)
